@@ -15,9 +15,9 @@ import (
 func init() { rules["C14"] = ruleC14 }
 
 func ruleC14(prog *Program, rep *Report) {
-	ruleOpArity(prog, rep) // what the parser compiles from a printed script has the operands the printer wrote
+	ruleOpArity(prog, rep)                                                           // what the parser compiles from a printed script has the operands the printer wrote
 	ruleDigitBuf(prog, rep, 1, "jp", "", "oj", "sen", "gen", "alt", "pretty", "asm") // an index fragment of any size prints
-	ruleCallOrder(prog, rep, 1, "jp") // the three parsers of script text apply the precedence correction and the group reduction in one order
+	ruleCallOrder(prog, rep, 1, "jp")                                                // the three parsers of script text apply the precedence correction and the group reduction in one order
 	rep.Explain("C14 decides structural clauses of the text round trip of paths and scripts: (1) every escape jp.AppendString can emit for a quoted key or string constant is accepted by the path parser's escape reader and decodes to the byte that was written; raw bytes never include the delimiter or a backslash; (2) the dot-form decision of Child.Append and the parser's dot-token reader consult the same table constant with the same class test, and the first-byte special cases of the parser are bytes the writer never emits bare; (3) no dereference of one operand under the nil guard of its sibling (the copy-paste that broke right-operand parentheses); (4) the operator table is a bijection on spellings (shared with C12). Not covered: precedence/associativity equivalence of print and re-parse, evaluation equality.")
 	ruleJPStringWriter(prog, rep)
 	ruleJPToken(prog, rep)
